@@ -44,6 +44,7 @@ type Engine struct {
 	Verbose    bool
 	inputVars  []NamedVal
 	methodIDs  map[string]int
+	initOK     map[*ssa.Package]bool
 	dispatch   map[string]func(p *Path, fr *Frame, c *ssa.CallCommon, recv Value, args []Value, dst ssa.Value, pos token.Pos) []*Path
 }
 
@@ -310,10 +311,16 @@ func (e *Engine) loadGlobal(st *State, g *ssa.Global) Value {
 	var v Value
 	if e.cs.ConstGl[globKey(g)] && !e.inInit {
 		is := e.initState(g.Pkg)
-		if iv, ok := is.Globs[g]; ok {
+		if iv, ok := is.Globs[g]; ok && e.initOK[g.Pkg] {
 			v = iv
 			st.Globs[g] = v
 			e.importContents(st, is, v, t)
+			return v
+		}
+		if e.initOK[g.Pkg] {
+			// never assigned by the initialiser: the zero value
+			v = zeroOf(t)
+			st.Globs[g] = v
 			return v
 		}
 	}
@@ -337,6 +344,9 @@ func (e *Engine) importConstGlobal(st *State, g *ssa.Global) {
 	}
 	st.Globs[g] = globalRef(g)
 	is := e.initState(g.Pkg)
+	if !e.initOK[g.Pkg] {
+		return
+	}
 	t := globalElemType(g)
 	ref := globalRef(g)
 	switch u := t.Underlying().(type) {
@@ -449,7 +459,18 @@ func (e *Engine) initState(pkg *ssa.Package) *State {
 		p.stack[0].top = true
 		e.runPaths(p, func(p *Path, normal bool, res []Value) {
 			if normal {
+				if e.initOK == nil {
+					e.initOK = map[*ssa.Package]bool{}
+				}
+				if _, seen := e.initOK[pkg]; seen {
+					// more than one way through the initialiser: its facts are not used
+					e.initOK[pkg] = false
+					e.initStates[pkg] = NewState()
+					e.note("package initialiser of %s has more than one feasible path; const_global facts are not imported", pkg.Pkg.Path())
+					return
+				}
 				e.initStates[pkg] = p.st
+				e.initOK[pkg] = true
 			}
 		})
 	}()
@@ -492,7 +513,7 @@ func (e *Engine) checkConstGlobals() {
 				f := fns[0]
 				fns = fns[1:]
 				fns = append(fns, f.AnonFuncs...)
-				if f.Name() == "init" || f.Synthetic != "" {
+				if f.Name() == "init" || strings.HasPrefix(f.Name(), "init#") || f.Synthetic != "" {
 					continue
 				}
 				for _, b := range f.Blocks {
